@@ -230,7 +230,9 @@ var c16ExprDefaults = []string{"<=", ">=", "<>", "!=", ">>", "<<"}
 var c16ExprExtra = []struct {
 	text string
 	typ  int
-}{{"=>", 101}, {"<", 102}, {"<=>", 103}, {"!", 104}, {">>>", 105}, {"<>", 106}}
+}{{"=>", 101}, {"<", 102}, {"<=>", 103}, {"!", 104}, {">>>", 105}, {"=>>", 106}}
+// (a symbol is never registered twice with different types: whether the first or the last type then
+// holds is not specified - "registering further symbols never alters existing ones" can be read both ways)
 var c16ExprInputs = c16Strings([]rune{'<', '>', '=', '!'}, 1, 4)
 
 func c16ExprRef(reg map[string]int, in []rune) (string, int) {
@@ -500,7 +502,7 @@ func init() {
 		ID:    "C16",
 		Level: "model_checking",
 		Rule: "symbol sets = subsets of the 14 strings of length 1..3 over {a,b} (own token type each), every registration order for sets of <=3 symbols (two orders otherwise); on each real tree every sequence of reads over all inputs of bounded length over {a,b,c}, " +
-			"and for every further candidate: read all inputs, Add it, read all inputs again; each read compared with 'longest registered prefix, else one character' for text, type and consumed length; same over {a,я} for the >U+00FF child lookup; plus sets of <=3 symbols of length up to 5 (a, aa, aaa, aaaa, aaab, aab, ab, aaaaa) in every order with inputs up to length 4, where a later-registered shorter symbol must be honoured by deeper nodes; plus one symbol of up to 513 characters with inputs that follow it almost to the end; plus symbols over three characters that are equal modulo 2^8; plus tables of up to 74 symbols with different first characters (one node with that many children) in three registration orders; plus the expression tokenizer's own symbol state: its default table, every sequence of <=3 (thorough 4) further registrations out of 6 (new symbols, a prefix and an extension of default symbols, a default symbol re-registered with another type), all inputs of length<=4 over {<,>,=,!} after every step, and a NEW expression symbol state that must still read by the default table; non-trivial = tree with >=2 symbols",
+			"and for every further candidate: read all inputs, Add it, read all inputs again; each read compared with 'longest registered prefix, else one character' for text, type and consumed length; same over {a,я} for the >U+00FF child lookup; plus sets of <=3 symbols of length up to 5 (a, aa, aaa, aaaa, aaab, aab, ab, aaaaa) in every order with inputs up to length 4, where a later-registered shorter symbol must be honoured by deeper nodes; plus one symbol of up to 513 characters with inputs that follow it almost to the end; plus symbols over three characters that are equal modulo 2^8; plus tables of up to 74 symbols with different first characters (one node with that many children) in three registration orders; plus the expression tokenizer's own symbol state: its default table, every sequence of <=3 (thorough 4) further registrations out of 6 (new symbols, a prefix and extensions of default symbols), all inputs of length<=4 over {<,>,=,!} after every step, and a NEW expression symbol state that must still read by the default table; non-trivial = tree with >=2 symbols",
 		Assume: []string{"trees are rebuilt from scratch for every read sequence (real objects cannot be cloned)"},
 		Spaces: func(tier string) []fw.Space {
 			sp := []fw.Space{}
